@@ -109,6 +109,20 @@ pub trait Prop {
     fn finish(&mut self, _out: &mut Out) {}
 }
 
+static HB_FILE: std::sync::Mutex<Option<(std::fs::File, u64)>> = std::sync::Mutex::new(None);
+
+/// Tag the heartbeat with what the current case is about to do (read by the supervisor when the
+/// worker stalls or dies).
+pub fn hb_tag(tag: &str) {
+    if let Ok(mut g) = HB_FILE.lock() {
+        if let Some((f, case)) = g.as_mut() {
+            let _ = f.set_len(0);
+            let _ = f.seek(SeekFrom::Start(0));
+            let _ = f.write_all(format!("{:>20}\n{}\n", case, tag).as_bytes());
+        }
+    }
+}
+
 thread_local! {
     pub static LAST_PANIC: std::cell::RefCell<Option<(String, String)>> = const { std::cell::RefCell::new(None) };
 }
@@ -223,8 +237,24 @@ fn parse_args() -> Args {
     a
 }
 
+struct StderrLog;
+impl log::Log for StderrLog {
+    fn enabled(&self, _: &log::Metadata<'_>) -> bool {
+        true
+    }
+    fn log(&self, r: &log::Record<'_>) {
+        eprintln!("{}", r.args());
+    }
+    fn flush(&self) {}
+}
+static LOGGER: StderrLog = StderrLog;
+
 fn main() {
     let a = parse_args();
+    if std::env::var("VH_SIMLOG").is_ok() {
+        let _ = log::set_logger(&LOGGER);
+        log::set_max_level(log::LevelFilter::Debug);
+    }
     if a.prop == "c20-miri" || a.prop == "c20-san" {
         // sanitizer / Miri entry: no panic hook games, plain run
         props::c20::sanitizer_main(&a.prop, a.seed, a.cases.unwrap_or(200), a.shard);
@@ -250,14 +280,10 @@ fn main() {
         cur_case: 0,
         verbose: a.verbose,
     };
-    let mut hb = a.hb.as_ref().map(|p| {
-        std::fs::OpenOptions::new()
-            .create(true)
-            .write(true)
-            .truncate(true)
-            .open(p)
-            .expect("open heartbeat")
-    });
+    if let Some(p) = a.hb.as_ref() {
+        let f = std::fs::OpenOptions::new().create(true).write(true).truncate(true).open(p).expect("open heartbeat");
+        *HB_FILE.lock().unwrap() = Some((f, 0));
+    }
     let t0 = Instant::now();
     let mut harness_errors: Vec<String> = vec![];
     let mut cut_short = false;
@@ -272,9 +298,13 @@ fn main() {
             cut_short = true;
             break;
         }
-        if let Some(f) = hb.as_mut() {
-            let _ = f.seek(SeekFrom::Start(0));
-            let _ = f.write_all(format!("{:>20}\n", case).as_bytes());
+        if let Ok(mut g) = HB_FILE.lock() {
+            if let Some((f, c)) = g.as_mut() {
+                *c = case;
+                let _ = f.set_len(0);
+                let _ = f.seek(SeekFrom::Start(0));
+                let _ = f.write_all(format!("{:>20}\n", case).as_bytes());
+            }
         }
         out.cur_case = case;
         let cx = CaseCx {
